@@ -50,6 +50,9 @@ DiagOf(X, s) ==
 
 ResTag(X, s) == IF X.st[s] = "exc" THEN <<"exc", X.res[s][2]>> ELSE <<X.res[s][1], 0>>
 
+(* the loop was stalled at or after time t (earlier in the trace)            *)
+StalledSince(t) == \E i \in 1..(l - 1) : Evs[i].k = "stall" /\ Evs[i].t >= t
+
 JustAfter(k, n) == l > 1 /\ Evs[l - 1].k = k /\ Evs[l - 1].n = n
 
 -----------------------------------------------------------------------------
@@ -73,7 +76,8 @@ ERaise ==
 
 ECancel ==
   /\ Is("cancel") /\ Once("cancel", Ev.n)
-  /\ IsJob(cfg, Ev.n) /\ S.st[Ev.n] = "cancelling" /\ S.tc[Ev.n] = S.now /\ Same
+  /\ IsJob(cfg, Ev.n) /\ S.st[Ev.n] = "cancelling" /\ Same
+  /\ S.tc[Ev.n] = S.now \/ StalledSince(S.tc[Ev.n])
 
 ERecancel == Is("recancel") /\ KeepM /\ S.st[Ev.n] = "cancelling" /\ Same
 
@@ -130,7 +134,8 @@ EDiag ==
 
 EShut ==
   /\ Is("shut") /\ Once("shut", Ev.n)
-  /\ IsJob(cfg, Ev.n) /\ S.sh[Ev.n] = "running" /\ S.ts[Ev.n] = S.now /\ Same
+  /\ IsJob(cfg, Ev.n) /\ S.sh[Ev.n] = "running" /\ Same
+  /\ S.ts[Ev.n] = S.now \/ StalledSince(S.ts[Ev.n])
 
 EShutDone ==
   /\ Is("shut-done") /\ KeepM /\ Marked("shut", Ev.n)
@@ -143,6 +148,13 @@ EShutCancel ==
 ETick ==
   /\ Is("tick") /\ KeepM
   /\ TickG(cfg, S) /\ S' = TickF(cfg, S) /\ S'.now = Ev.i
+
+(* the event loop was kept busy by a blocking job body: the clock moves on  *)
+(* although instant actions are pending (the one deviation from maximal    *)
+(* progress the environment is allowed; only in scenarios that script it)  *)
+EStall ==
+  /\ Is("stall") /\ KeepM
+  /\ Ev.i > S.now /\ S' = [S EXCEPT !.now = Ev.i]
 
 ESnap ==
   /\ Is("snap") /\ KeepM /\ Same
@@ -168,7 +180,7 @@ Logged ==
   /\ l' = l + 1
   /\ \/ ERunBegin \/ EStart \/ EEnd \/ ERaise \/ ECancel \/ ERecancel \/ ECancelDone
      \/ ESshut \/ ESshutRet \/ ESshutCancel \/ ERunEnd \/ ERunExc \/ EDiag
-     \/ EShut \/ EShutDone \/ EShutCancel \/ ETick \/ ESnap \/ ETop \/ ELeftover
+     \/ EShut \/ EShutDone \/ EShutCancel \/ ETick \/ ESnap \/ ETop \/ ELeftover \/ EStall
 
 Silent ==
   /\ l' = l /\ KeepM /\ Has
@@ -256,6 +268,7 @@ Why(C, X, e) ==
        [] e.k = "shut-done" -> "shut-done-unexpected"
        [] e.k = "shut-cancel" -> "shut-cancel-unexpected"
        [] e.k = "snap" -> "predicates"
+       [] e.k = "stall" -> "stall-other"
        [] e.k = "top" ->
             (IF e.v \in {"deadlock", "livelock"} THEN "no-progress-" \o e.v
              ELSE IF ~Terminated(C, X) THEN "top-early"
